@@ -135,7 +135,9 @@ def check_batt_life(sess, op, res):
         return
     if op.get("pfault"):
         return  # judged by C17
-    if bat is not None and any(e[0] == "deplete" and (e[2] == 0 or not math.isfinite(e[1]) or not math.isfinite(e[2])) for e in bat.log):
+    deps = [e for e in (bat.log if bat is not None else []) if e[0] == "deplete"]
+    never = deps and all(e[2] == 0 for e in deps)
+    if bat is not None and (never or any(not math.isfinite(e[1]) or not math.isfinite(e[2]) for e in deps)):
         # a battery that is never discharged: its capacity does not 'eventually
         # run out', the property does not speak about it
         sess.stats["c18_zero_current_skipped"] += 1
@@ -144,6 +146,25 @@ def check_batt_life(sess, op, res):
         if res[1] == "PeerLimit":
             sess.stats["c18_peer_limit"] += 1
             return
+        if res[1] in ("ValueError", "RuntimeError") and bat is not None and bat.log:
+            # did the battery state make the system unsolvable?  Then no steady
+            # state exists and the property does not speak; decided with a
+            # from-scratch system carrying the last returned battery state
+            from .spec import build as _build
+
+            st = bat.log[-1][3]
+            phs = list(m.sys_phases.keys()) or [""]
+            ph = phs[(len(bat.log) - 1) % len(phs)]
+            fr = sess.build_fresh()
+            sp = copy.deepcopy(m.comps[name])
+            sp["p"]["vo"], sp["p"]["rs"] = st[1], st[2]
+            fr.change_comp(name, comp=_build(sp), group=m.groups[name], rail=m.rails[name])
+            if m.phase_conf[name]:
+                fr.set_comp_phases(name, copy.deepcopy(m.phase_conf[name]))
+            rr = sess._guard(lambda: fr.solve(phase=ph) if ph else fr.solve())
+            if rr[0] == "exc" and rr[1] in ("ValueError", "RuntimeError"):
+                sess.stats["c18_unsolvable_state_skipped"] += 1
+                return
         sess.fail("C18", "batt-life-succeeds", "batt_life raised %s(%s)" % (res[1], res[2]))
     log = bat.log
     if not log or log[0][0] != "probe" or any(e[0] == "probe" for e in log[1:]):
